@@ -140,13 +140,18 @@ EvadeGen(p) ==
 EvadeOK(p) == ValidPosition(p) /\ \A z \in Sq : p.b[z] \in {"P", "p"} => RankOf(z) \in 1..6
 
 (* ---- promomate: a white pawn on the seventh rank that can capture a black piece on the eighth, the black king a
-   knight's move from the capture square with (nearly) all its neighbours blocked by its own men, an optional white
-   helper piece: the positions in which a promotion - in particular an under-promotion by capture - mates. *)
+   knight's move from the capture square or within two squares of the promotion square, with (nearly) all its
+   neighbours blocked by its own men, an optional white helper piece: the positions in which a promotion - an
+   under-promotion by capture, or a push while a capture is also possible - mates. *)
 PromoMateGen(p) ==
     LET f == PromoFile
         helper == Variant                                     \* "Q", "R", "B", "N" or "." (none)
     IN \E t \in { At(g, 7) : g \in { g \in {f - 1, f + 1} : g \in 0..7 } }, x \in {"r", "b", "n", "q"} :
-       \E bk \in { z \in KnightT[t] : RankOf(z) >= 5 }, wk \in {0, 7} :
+       \E bk \in { z \in Sq : RankOf(z) >= 5 /\ z # t /\ z # At(f, 6)
+                                /\ (z \in KnightT[t] \/ (LET df == FileOf(z) - f  dr == RankOf(z) - 7
+                                                               ab(v) == IF v < 0 THEN -v ELSE v IN
+                                                           ab(df) <= 2 /\ ab(dr) <= 2 /\ z # At(f, 7)))
+                                /\ (helper # "." \/ InSlice(z)) }, wk \in {0, 7} :
        \E holes \in { H \in SUBSET (KingT[bk] \ {t, At(f, 6)}) : Cardinality(H) <= 2 },
           h \in (IF helper = "." THEN {-1} ELSE { z \in Sq : InSlice(z) }) :
           LET blockers == { z \in KingT[bk] \ ({t, At(f, 6)} \cup holes) : TRUE }
@@ -198,8 +203,13 @@ EmitCaptureMates == (CaptureMates(pos) # {}) =>
 EmitForcedMates == (InCheck(pos) /\ Cardinality(Legal(pos)) <= 2 /\ MateMoves(pos) # {}) =>
                    PrintT(<<"SPOS", ToJson([fen |-> ToFEN(pos), mirror |-> ToFEN(Mirror(pos)),
                                             mates |-> SortedSeq(Codes(MateMoves(pos))), nopromo |-> NoPromoAtRoot])>>)
-\* only positions in which an under-promotion mates and the queen promotion on the same squares does not
-EmitUnderPromoMates == (\E m \in MateMoves(pos) : m.promo \in {"N", "B", "R"} /\ M(m.from, m.to, "Q") \notin MateMoves(pos)) =>
+\* only positions in which an under-promotion mates and the queen promotion on the same squares does not, or in
+\* which a promotion by a straight push mates while the same pawn could also capture (a search that looks at
+\* captures first, under a destination mask, has then taken moves of that pawn before it comes to the push)
+UnderPromoMate == \E m \in MateMoves(pos) : m.promo \in {"N", "B", "R"} /\ M(m.from, m.to, "Q") \notin MateMoves(pos)
+PushPromoMateBesideCapture == \E m \in MateMoves(pos) : /\ m.promo # "" /\ FileOf(m.from) = FileOf(m.to)
+                                                       /\ \E c \in Legal(pos) : c.from = m.from /\ FileOf(c.to) # FileOf(c.from)
+EmitUnderPromoMates == (UnderPromoMate \/ PushPromoMateBesideCapture) =>
                    PrintT(<<"SPOS", ToJson([fen |-> ToFEN(pos), mirror |-> ToFEN(Mirror(pos)),
                                             mates |-> SortedSeq(Codes(MateMoves(pos))), nopromo |-> NoPromoAtRoot])>>)
 =============================================================================
